@@ -368,13 +368,14 @@ def summarize(F, key):
     elif rty not in ("()", "!"):
         universe |= set(_stab(F, ex.local(0, 0, ())))
     gates = sorted({c["key"] for c in calls if c["kind"] in GATE or c["sink"]})
+    gates_tested = sorted({c["key"] for c in calls if c["kind"] in GATE and c["kind"] != "plain-return"})  # the verdict is examined here, not handed on
     # how many Option / Result combinators consume values here (a `match` on a call's result may legitimately become one of them)
     combs = 0
     for bi, t in F.calls(key):
         if bi in live and any(re.search(r"^core::(option::Option|result::Result)::[a-z_]+$", nm) for nm in callee_names(t)):
             combs += 1
     return {"must": must, "order": order, "args": args, "guards": guards, "silent": silent, "assigns": assigns, "ret": ret,
-            "consts": const_census(fn), "universe": sorted(universe), "gates": gates, "combs": combs, "rejects": rejects, "reject_vars": sorted(var_blocks), "each": each,
+            "consts": const_census(fn), "universe": sorted(universe), "gates": gates, "gates_tested": gates_tested, "combs": combs, "rejects": rejects, "reject_vars": sorted(var_blocks), "each": each,
             "guard_n": sorted([json.loads(g), c] for g, c in gcount.items() if c > 1), "guard_all": dict(gcount)}
 
 
@@ -470,6 +471,26 @@ def _is_try_switch(fn, bi):
     return False
 
 
+def _head_calls(F, e, depth=0):
+    """Workspace calls whose result the tested expression is (through std plumbing: `is_ok(map(get_hash(..), ..))` -> get_hash): the calls a
+    branch really tests, as opposed to the calls its operands merely derive from (a loop bound, an index)."""
+    if depth > 10:
+        return set()
+    cur, base = ws_short_names(F)
+    if e.kind == "call":
+        if e.a in cur or e.a in base:
+            return {e.a}
+        return _head_calls(F, e.kids[0], depth + 1) if e.kids else set()
+    if e.kind == "phi":
+        out = set()
+        for x in e.kids:
+            out |= _head_calls(F, x, depth + 1)
+        return out
+    if e.kind in ("un", "discr", "field") and e.kids:
+        return _head_calls(F, e.kids[0], depth + 1)
+    return set()
+
+
 def cond_signature(F, e):
     """[op, lhs atoms, rhs atoms] for comparisons (canonical under polarity and operand order), ["branch", atoms, []] for any other test
     of a value (bool call, flag, `match`/`if let` on a call result); None for `?`, log tests, loop headers and tests of nothing stable."""
@@ -501,7 +522,7 @@ def cond_signature(F, e):
     a = [x for x in _stab(F, ee) if not x.startswith("val:") and not x.startswith("op:")]
     if not any(x.startswith("call:") or re.match(r"^arg\d+\.", x) for x in a):
         return None
-    return ["branch", a, []]
+    return ["branch", a, sorted("head:" + h for h in _head_calls(F, ee))]
 
 
 def scope(F, prop_record, depth=2, want_named=False):
@@ -610,6 +631,7 @@ def generate(F, prop_record, named_elsewhere=()):
             s["callers"] = sorted({_closure_role(F, c) for name in (k, strip_impl(k)) for (c, _bi) in F.callers.get(name, []) if c != k})[:12] if not s["closure"] else []
             s.pop("universe", None)
             s.pop("guard_all", None)
+            s.pop("gates_tested", None)
             s.pop("reject_vars", None)
             out[_closure_role(F, k)] = s
     return out
@@ -686,8 +708,24 @@ def _guard_present(ctx, cs, k, g, closures, helpers, relaxed=False, base_combs=N
                 if re.search(r"@(?:Iterator|Option|Result)::(filter|filter_map|find|find_map|any|all|position|take_while|skip_while|map_while|and_then|is_some_and|is_ok_and)#\d+$", role):
                     # the adaptor tests what the closure returns: the calls made in the closure gate the continuation through it
                     gated |= {a[5:] for a in cs.get(x)["universe"] if a.startswith("call:")}
-            if calls <= gated:
+            if calls <= gated and not any(a.startswith("head:") for a in g[2]):
                 return True
+            heads = {a[5:] for a in g[2] if a.startswith("head:") and a[5:] in cur_names}
+            tested = set()
+            for x in [k] + closures + [h for h in helpers if short(h, 2) not in _b]:
+                tested |= {_short_callee(c) for c in cs.get(x)["gates_tested"]}
+                tested |= {a[5:] for cg in cs.get(x)["guards"] for a in cg[1] + cg[2] if a.startswith("call:")}
+            for x in closures:
+                if re.search(r"@(?:Iterator|Option|Result)::(filter|filter_map|find|find_map|any|all|position|take_while|skip_while|map_while|and_then|is_some_and|is_ok_and)#\d+$", _closure_role(F, x)):
+                    tested |= {a[5:] for a in cs.get(x)["universe"] if a.startswith("call:")}
+            if heads and heads <= tested:
+                # the calls whose result the branch tested are still tested; the calls its operands merely derived from (a loop bound, an
+                # index) only have to be made still
+                uni0 = set()
+                for x in [k] + closures:
+                    uni0 |= {a[5:] for a in cs.get(x)["universe"] if a.startswith("call:")}
+                if calls <= (gated | uni0):
+                    return True
             if base_combs is not None:
                 # a `match` / `if let` that only selected a value (`match r { Ok(h) => h, Err(_) => 0 }`) written as a combinator (`r.unwrap_or(0)`):
                 # the calls are still made and the function consumes more Option / Result values through combinators than it did
@@ -953,14 +991,26 @@ def check(ctx, prop):
         for bk, cur_conds in cur.get("silent", {}).items():
             if _short_callee(bk) not in base_sinks:
                 continue  # a new state-changing call: nothing confirmed about it
-            for (sig, arm) in cur_conds:
+            cur_cores = [_core(F, sg) for (sg, _a) in cur_conds]
+            refined = set()
+            for (sig, arm) in sorted(cur_conds, key=lambda x: len(_core(F, x[0]))):
                 n["silent"] += 1
                 core = _core(F, sig)
                 if not core:
                     continue
                 def _weighty(cset):
                     return any(a_.startswith("call:") or a_.startswith("field:") for a_ in cset)
-                if any(core <= bc_ or (bc_ and _weighty(bc_) and bc_ <= core) for bc_ in base_cores):
+                if any(core <= bc_ for bc_ in base_cores):
+                    continue
+                # a confirmed condition may have been refined (`a` -> `a && b` evaluated as one test): one richer condition per confirmed one,
+                # and only when the confirmed condition itself is no longer there unchanged (otherwise the richer one is a new, separate test)
+                slot = None
+                for bi_, bc_ in enumerate(base_cores):
+                    if bc_ and _weighty(bc_) and bc_ < core and bi_ not in refined and not any(cc == bc_ for cc in cur_cores):
+                        slot = bi_
+                        break
+                if slot is not None:
+                    refined.add(slot)
                     continue
                 if any(core <= gc for gc in base_guard_cores if gc):
                     # the condition itself is a confirmed one; it now also governs this call only if the call sat under it before
@@ -1076,7 +1126,7 @@ def _core(F, sig):
     """The stable, non-representational part of a condition: parameter paths, fields, workspace calls."""
     out = set()
     for a in list(sig[1]) + list(sig[2]):
-        if a.startswith("val:") or a.startswith("op:"):
+        if a.startswith("val:") or a.startswith("op:") or a.startswith("head:"):
             continue
         out.add(a)
     return _live_atoms(F, out)
